@@ -522,6 +522,7 @@ func (c *Conn) Close() error {
 	// in is deliberately not closed: Write can be running on any goroutine, and
 	// a send on a closed channel panics. Closing done tells it to stop instead.
 	close(c.done)
+	verifPoint("cli.close")
 
 	fr := AcquireFrameHeader()
 	defer ReleaseFrameHeader(fr)
@@ -562,6 +563,8 @@ func (c *Conn) Write(r *Ctx) {
 
 		return
 	}
+
+	verifPoint("cli.write.queued")
 
 	// The write loop may have gone away between the send and now, in which case
 	// it has already drained the queue and nobody will ever pick this Ctx up.
@@ -775,6 +778,7 @@ func (c *Conn) finish(r *Ctx, stream uint32, err error) {
 
 	c.deletePending(stream)
 
+	verifPoint("cli.finish")
 	r.markFinished()
 	r.resolve(err)
 }
@@ -827,6 +831,8 @@ func (c *Conn) readLoop() {
 		if fr.Type() == FrameWindowUpdate {
 			c.addWindow(fr.Stream(), int32(fr.Body().(*WindowUpdate).Increment()))
 		}
+
+		verifPoint("cli.read.dispatch")
 
 		stop := c.dispatch(fr)
 
@@ -1020,6 +1026,8 @@ func (c *Conn) writeRequest(ctx *Ctx) error {
 		return ErrNotAvailableStreams
 	}
 
+	verifPoint("cli.req.start")
+
 	// The request may have been canceled while it sat in the queue, in which
 	// case its Request no longer belongs to us. Ownership is handed back
 	// explicitly rather than deferred: sending the body takes it again, and the
@@ -1146,6 +1154,7 @@ func (c *Conn) writeRequest(ctx *Ctx) error {
 			pb.body = req.Body()
 		}
 
+		verifPoint("cli.req.pending")
 		c.sendLck.Lock()
 		c.pending[id] = pb
 		c.sendLck.Unlock()
